@@ -71,15 +71,17 @@ func vCell(shape int) interface{} {
 		return vAwkward
 	case 18: // a set holding such strings
 		return OvsSet{GoSet: []interface{}{vAwkward, "plain"}}
-	default: // a map holding such strings
+	case 19: // a map holding such strings
 		return OvsMap{GoMap: map[interface{}]interface{}{vAwkward: vAwkward}}
+	default: // map uuid->uuid (both members of a pair are arrays on the wire)
+		return OvsMap{GoMap: map[interface{}]interface{}{UUID{GoUUID: rt.UUID()}: UUID{GoUUID: rt.UUID()}}}
 	}
 }
 
 // vAwkward: bell, vertical tab, SOH, ESC, DEL, quote, backslash, newline, a non-BMP rune, HTML characters.
 const vAwkward = "\a\v\x01\x1b\x7f\"\\\n\U000e0001<&>"
 
-const vCellShapes = 20
+const vCellShapes = 21
 
 // vRowShapes bounds the cell shapes used inside rows of composite values (entries narrow it for the quick tier).
 var vRowShapes = vCellShapes
